@@ -82,6 +82,8 @@ pub enum Val {
     Exts(u8),
     Dir(bool),
     StringSet(Vec<Vec<u8>>),
+    /// Lmer with 1, 2 or 3 storage words
+    Lmer(u8, Vec<u8>),
     BaseGraph(GraphSpec),
     Graph(GraphSpec, bool),
 }
@@ -288,7 +290,13 @@ impl Harness for SerdeCheck {
                 let n = rng.range(0, 6);
                 Val::StringSet((0..n).map(|_| { let l = rng.range(0, 70); dna::random_seq(rng, l, &[0, 1, 2, 3]) }).collect())
             }
-            6 | 7 => Val::BaseGraph(gen_graph_spec(rng, &KTYPES, 6, 100)),
+            6 => {
+                let words = rng.range(1, 3) as u8;
+                let max = (words as usize * 64 - 8) / 2;
+                let len = *rng.pick(&[0usize, 1, max / 2, max - 1, max]);
+                Val::Lmer(words, dna::random_seq(rng, len, &[0, 1, 2, 3]))
+            }
+            7 => Val::BaseGraph(gen_graph_spec(rng, &KTYPES, 6, 100)),
             _ => Val::Graph(gen_graph_spec(rng, &KTYPES, 6, 100), rng.chance(1, 2)),
         };
         SerdeCase {
@@ -339,6 +347,25 @@ impl Harness for SerdeCheck {
                     }
                     Ok(())
                 })
+            }
+            Val::Lmer(words, b) => {
+                use debruijn::vmer::{Lmer1, Lmer2, Lmer3};
+                use debruijn::Vmer;
+                fn rt<V: Vmer + Serialize + DeserializeOwned + Debug>(b: &[u8], c: &SerdeCase, rec: &mut Rec) -> Result<(), Violation> {
+                    let v = V::from_slice(b);
+                    round_trip("serde Lmer", &v, c, rec, &|a: &V, x: &V| {
+                        if a == x && a.len() == x.len() && (0..a.len()).all(|i| a.get(i) == x.get(i)) {
+                            Ok(())
+                        } else {
+                            Err(format!("{:?} != {:?}", a, x))
+                        }
+                    })
+                }
+                match words {
+                    1 => rt::<Lmer1>(b, c, rec),
+                    2 => rt::<Lmer2>(b, c, rec),
+                    _ => rt::<Lmer3>(b, c, rec),
+                }
             }
             Val::BaseGraph(g) => with_k!(g.ktype.as_str(), [Kmer4, Kmer6, Kmer8, Kmer16, KmerK31, Kmer32, Kmer48], basegraph_rt, (g, c, rec)),
             Val::Graph(g, par) => with_k!(g.ktype.as_str(), [Kmer4, Kmer6, Kmer8, Kmer16, KmerK31, Kmer32, Kmer48], graph_rt, (g, *par, c, rec)),
